@@ -26,6 +26,7 @@ type Outcome struct {
 	Sample   interface{} `json:"sample,omitempty"`
 	Scenario interface{} `json:"scenario,omitempty"` // human-readable decode of the tape (always filled on violation)
 	Others   []Failure   `json:"others,omitempty"`   // further distinct (class, locator) failures of the same run
+	MustExit bool        `json:"must_exit,omitempty"` // simulated threads are stuck: the worker process cannot be reused
 }
 
 // Failure is one violated check inside a run.
